@@ -92,6 +92,7 @@ Bad_(class) == [k |-> "recvbad", n |-> 0, c |-> 0, cmd |-> 0, ack |-> 0, t |-> 0
                 buf |-> FALSE, fault |-> "", fk |-> 0]
 Junk_(class) == [Bad_(class) EXCEPT !.k = "sendjunk"]
 Reboot_(n) == [Bad_("") EXCEPT !.k = "reboot", !.n = n]
+Cycle_ == [Bad_("") EXCEPT !.k = "cycle"]       \* async with gateway: ... left and entered again
 
 \* registry builders
 Vals1(t, p)        == [x \in {t} |-> p]
